@@ -35,18 +35,34 @@ def configs(tier):
     rx = dict(rxcmds=[0x0D, 0x1E], rxbytes=[0x40], rise0=True, rise1=True)
     if tier != "quick": rx = dict(rx, rxcmds=[0x0D, 0x1E, 0x02], rxbytes=[0x40, 0x80])
     # no budgets: closed under all NXT schedules, DIR interruptions and packet sequences
-    return [dict(name=f"op_mode{op}", checks=["tx"], ctrl=[dict(op_mode=op)], packets=pk, phy=rx) for op in (0, 2)]
+    c = [dict(name=f"op_mode{op}", checks=["tx"], ctrl=[dict(op_mode=op)], packets=pk, phy=rx) for op in (0, 2)]
+    # OpMode switched between packets (only while the UTMI transmitter is idle, see TxSpec.actions): a packet's framing
+    # must follow the OpMode of that packet, whatever the modes of earlier packets were.  The register writes the
+    # change causes are C24's subject and not judged here (checks=["tx"]); they do share the bus with the packets.
+    sw = [[0xC3], [0x4B, 0x00, 0xFF]] if tier == "quick" else pk
+    c.append(dict(name="op_mode-switching", checks=["tx"], ctrl=[dict(op_mode=0), dict(op_mode=2)], packets=sw,
+                  phy=dict(rxcmds=[0x0D], rxbytes=[0x40], rise0=True, rise1=False)))
+    return c
 
 
 class TxSpec(UlpiSpec):
+    def actions(self, env):
+        acts = super().actions(env)
+        if env[0] == "!" or len(self.ctrl) == 1: return acts
+        # OpMode changes only between packets: not while a packet is offered / awaits its STP, nor with a packet start
+        quiet = env[1] is None and not env[5]
+        return [a for a in acts if a[2] == env[2] or (quiet and a[1] == 0)]
+
     def goals(self):
-        g = ["prologue-settled", "txcmd", "txstp", "tx-packet-done", "abort-tx", "rise0", "rise1"]
+        g = ["prologue-settled", "txcmd", "txstp", "tx-packet-done", "abort-tx", "rise0"]
+        if self.cfg["phy"].get("rise1", True): g += ["rise1"]
+        if len(self.ctrl) > 1: g += ["ctrl-change"]
         if self.mode2[0] or any(len(p) > 1 for p in self.packets): g += ["txbyte", "tx-stall"]
         return g
 
     def assumptions(self):
         return ["the UTMI transmitter follows UTMI: TxValid with the first byte, data held until TxReady, TxValid dropped in the cycle after the last byte is taken, at least one idle cycle between packets",
-                "OpMode is constant (0 or 2) and written to the PHY before the first packet; other control inputs constant (changes are C24's subject)",
+                "OpMode is constant during a packet (0 or 2); in the op_mode-switching configuration it changes only while the UTMI transmitter is idle; other control inputs constant (changes are C24's subject)",
                 "PHY outputs are registered: NXT never reacts to the link's outputs of the same cycle; NXT is low on an idle bus",
                 "the PHY raises DIR only on an idle bus or against a command it has not accepted yet, never inside a transmit packet (ULPI: the PHY defers RX CMDs while the link transmits)",
                 "NXT is unconstrained in the STP cycle (the PHY cannot know the packet ends)"]
